@@ -94,7 +94,7 @@ CHECKS = {
          "DESIGN.md section 7, C17"),
  "C18": ("exploration",
          "exhaustive enumeration of file-system arrangements x search lists x resolution modes x entry points x main programs against a reference resolver and the analysis of the textually inlined program",
-         "Real directory trees are built under /verif/.work: every assignment of the include files to subsets of 2 (thorough 3) search directories with directory-specific contents (so the directory picked is observable in the graph), file b in 5 flavours (own symbol, uses a's symbol, includes a, syntax fault, lexical fault), every search list that is a permutation of a subset of the directories, given explicitly (with QASM3_PATH set to the reverse order, which must be ignored), through QASM3_PATH only, or not at all, both entry points (string and file), and 22 main programs (include first / between declarations / used afterwards / name clash / two files in both orders / twice / below global scope in if and def / missing / with stdgates / missing in the middle / absolute path / nested / invalid escape / no path / the standard library between two real includes / annotation lines before an include in the middle and at the end), with and without a decoy file named stdgates.inc (benign or faulty) in every directory. Oracles: graph and symbols equal those of the inlined text, diagnostics equal as multiset plus exactly the predicted FileNotFound / IncludeNotInGlobalScope ones, the list tagged with each resolved canonical path holds the diagnostics of that file's own text, faults in the main text or in a file that is actually read gate analysis, no panic.",
+         "Real directory trees are built under /verif/.work: every assignment of the include files to subsets of 2 (thorough 3) search directories with directory-specific contents (so the directory picked is observable in the graph), file b in 5 flavours (own symbol, uses a's symbol, includes a, syntax fault, lexical fault), every search list that is a permutation of a subset of the directories, given explicitly (with QASM3_PATH set to the reverse order, which must be ignored), through QASM3_PATH only, or not at all, both entry points (string and file), and 23 main programs (include first / between declarations / used afterwards / name clash / two files in both orders / twice / below global scope in if and def / missing / with stdgates / missing in the middle / absolute path / nested / invalid escape / no path / the standard library between two real includes / annotation lines before an include in the middle and at the end), with and without a decoy file named stdgates.inc (benign or faulty) in every directory. Oracles: graph and symbols equal those of the inlined text, diagnostics equal as multiset plus exactly the predicted FileNotFound / IncludeNotInGlobalScope ones, the list tagged with each resolved canonical path holds the diagnostics of that file's own text, faults in the main text or in a file that is actually read gate analysis, no panic.",
          "Include cycles are not generated (outside the statement). Chains of nested includes of depth 1-20 (thorough 70) form a second space (F-CHAIN). The environment variable is set and cleared around each configuration inside single-threaded worker processes.",
          "DESIGN.md section 7, C18"),
  "C19": ("model_checking",
